@@ -145,7 +145,9 @@ var c12Message = probe.Define("C12", "message", genImage, func(in bytesIn) probe
 		return probe.Fail("no fixed point after one step: encode(decode(y)) != y\n y =%x\n y2=%x", y, y2)
 	}
 	// canonical input => byte-identical re-encoding
-	if pm, err := ref.ParseMessage(in.W, ref.Parse{Strict: true}); err == nil {
+	// canonical = a datagram the independent encoder produces for a message of the encodable domain with zero liberties
+	// (in particular every transform is of a type 1..5 the library's data model can file)
+	if pm, err := ref.ParseMessage(in.W, ref.Parse{Strict: true}); err == nil && pm.InDomain() {
 		if cw, err := ref.EncodeMessage(pm.Normalize(), nil); err == nil && bytes.Equal(cw, in.W) {
 			labels = append(labels, "canonical-input")
 			if !bytes.Equal(y, in.W) {
@@ -216,7 +218,7 @@ var c12EAP = probe.Define("C12", "eap", genEAPImage, func(in bytesIn) probe.Outc
 	if !bytes.Equal(y, y2) {
 		return probe.Fail("EAP: no fixed point after one step\n y =%x\n y2=%x", y, y2)
 	}
-	if pe, err := ref.ParseEAP(in.W, true); err == nil {
+	if pe, err := ref.ParseEAP(in.W, true); err == nil && pe.InDomain() {
 		if cw, err := ref.EncodeEAP(pe.Normalize(), nil); err == nil && bytes.Equal(cw, in.W) {
 			labels = append(labels, "canonical-input")
 			if !bytes.Equal(y, in.W) {
